@@ -923,7 +923,62 @@ func (g *Gen) numberLit() {
 	}
 	forms := []string{"0", "7", "42", "3.5", ".5", "3.", "1e10", "1E-3", "2.5e+4", "0x1F", "0XaB", "0x.8", "0xA.8p1", "0x1p-3", "0x10P+2",
 		"1e400", "1e-400", "9007199254740993", "12LL", "34ULL", "0x1Fll", "7uLL", "00012", "1e0", "0e0", "0x0"}
-	g.emit(forms[g.intn(len(forms), "num")])
+	if g.intn(3, "numGrammar") > 0 {
+		g.emit(forms[g.intn(len(forms), "num")])
+		return
+	}
+	// a numeral drawn from the grammar: decimal  D [. D] [e [+-] D] | . D [e..]; hexadecimal
+	// 0x H [. H] [p [+-] D] (the hex digits e / E are not exponent markers); optional LL / ULL suffix on
+	// integers
+	digits := func(set string, min, max int, label string) string {
+		n := min + g.intn(max-min+1, label+"N")
+		b := make([]byte, n)
+		for i := range b {
+			b[i] = set[g.intn(len(set), label)]
+		}
+		return string(b)
+	}
+	var b strings.Builder
+	isInt := true
+	if g.intn(2, "numHex") == 0 {
+		b.WriteString([]string{"0x", "0X"}[g.intn(2, "numHexPre")])
+		h := digits("0123456789abcdefABCDEF", 1, 4, "hexDigit")
+		if g.intn(3, "hexEndsInE") == 0 {
+			h += []string{"e", "E"}[g.intn(2, "hexE")]
+		}
+		b.WriteString(h)
+		if g.intn(4, "hexFrac") == 0 {
+			isInt = false
+			b.WriteString(".")
+			b.WriteString(digits("0123456789abcdefABCDEF", 0, 3, "hexFracDigit"))
+			if g.intn(2, "hexFracE") == 0 {
+				b.WriteString("e")
+			}
+		}
+		if g.intn(4, "hexExp") == 0 {
+			isInt = false
+			b.WriteString([]string{"p", "P"}[g.intn(2, "hexP")])
+			b.WriteString([]string{"", "+", "-"}[g.intn(3, "hexSign")])
+			b.WriteString(digits("0123456789", 1, 2, "hexExpDigit"))
+		}
+	} else {
+		b.WriteString(digits("0123456789", 1, 4, "decDigit"))
+		if g.intn(3, "decFrac") == 0 {
+			isInt = false
+			b.WriteString(".")
+			b.WriteString(digits("0123456789", 0, 3, "decFracDigit"))
+		}
+		if g.intn(3, "decExp") == 0 {
+			isInt = false
+			b.WriteString([]string{"e", "E"}[g.intn(2, "decE")])
+			b.WriteString([]string{"", "+", "-"}[g.intn(3, "decSign")])
+			b.WriteString(digits("0123456789", 1, 3, "decExpDigit"))
+		}
+	}
+	if isInt && g.intn(5, "numSuffix") == 0 {
+		b.WriteString([]string{"LL", "ULL", "ll", "uLL", "Ull"}[g.intn(5, "numSuffixForm")])
+	}
+	g.emit(b.String())
 }
 
 func (g *Gen) stringLit() {
